@@ -34,6 +34,8 @@ TXT = {
     21: "-",
     22: "- 3",
     23: "12 ]",
+    24: "d\u00e9focus \u00b5m \u00c5 \u6e2c\u5b9a.mrc",
+    25: "\u00d8 0.5 \u00b1 0.1",
 }
 TXT_REV = {v: k for k, v in TXT.items()}
 
@@ -59,6 +61,21 @@ def render_raw(tok):
     if c == "txt":
         return TXT[tok["id"]]
     raise ValueError("unknown raw token %r" % (tok,))
+
+
+def restyle(path, style):
+    """Rewrite a text input with another line-end / end-of-file convention (bit 0: CRLF line ends, bit 1: two trailing
+    blank lines) - both are things an editor or another operating system does to .tlt / .mdoc / .star / .txt files."""
+    if not style & 3:
+        return
+    with open(path, newline="", encoding="utf-8") as fh:
+        text = fh.read()
+    eol = "\r\n" if style & 1 else "\n"
+    text = text.replace("\r\n", "\n").replace("\n", eol)
+    if style & 2:
+        text += eol + eol
+    with open(path, "w", newline="", encoding="utf-8") as fh:
+        fh.write(text)
 
 
 def render_doc(doc, layout=0):
@@ -185,24 +202,49 @@ def write_values(path, vals, scale, places, pad=""):
             fh.write("%s%s\n" % (pad, dec(v, scale, places)))
 
 
-def write_gctf(path, rows, with_phase):
-    """gctf STAR file: rows [u, v, ang, ps] with u, v in Angstrom x10, ang x100, ps x1000."""
-    labels = ["_rlnMicrographName", "_rlnCtfImage", "_rlnDefocusU", "_rlnDefocusV", "_rlnDefocusAngle", "_rlnVoltage",
-              "_rlnSphericalAberration", "_rlnAmplitudeContrast"]
+def micrograph_names(n, style, seed=0):
+    """Micrograph names as processing pipelines write them; their string order has nothing to do with the tilt order."""
+    import random
+    if style == "padded":
+        return ["split.mrc.%02d" % (k + 1) for k in range(n)]
+    if style == "unpadded":
+        return ["ts_%d.mrc" % (k + 1) for k in range(n)]          # ts_1, ts_10, ts_11, ts_2 ... as strings
+    if style == "reversed":
+        return ["frame_%03d.mrc" % (n - k) for k in range(n)]
+    rnd = random.Random(seed)
+    pool = ["img_%04d_%s.mrc" % (rnd.randrange(10000), rnd.choice("abcxyz")) for _ in range(n)]
+    return pool
+
+
+def write_gctf(path, rows, with_phase, names="padded", optional=7):
+    """gctf STAR file: rows [u, v, ang, ps] with u, v in Angstrom x10, ang x100, ps x1000.  names: style of the
+    rlnMicrographName column or "absent"; optional bits: 1 rlnCtfImage, 2 microscope constants, 4 figure of merit."""
+    labels, cols = [], []
+    n = len(rows)
+    if names != "absent":
+        nm = micrograph_names(n, names, n)
+        labels.append("_rlnMicrographName")
+        cols.append(nm)
+        if optional & 1:
+            labels.append("_rlnCtfImage")
+            cols.append([x + ".ctf:mrc" for x in nm])
+    labels += ["_rlnDefocusU", "_rlnDefocusV", "_rlnDefocusAngle"]
+    cols += [[dec(r["u"], 10, 6) for r in rows], [dec(r["v"], 10, 6) for r in rows], [dec(r["ang"], 100, 6) for r in rows]]
+    if optional & 2:
+        labels += ["_rlnVoltage", "_rlnSphericalAberration", "_rlnAmplitudeContrast"]
+        cols += [["300.000000"] * n, ["2.700000"] * n, ["0.070000"] * n]
     if with_phase:
         labels.append("_rlnPhaseShift")
-    labels.append("_rlnCtfFigureOfMerit")
+        cols.append([dec(r["ps"], 1000, 6) for r in rows])
+    if optional & 4:
+        labels.append("_rlnCtfFigureOfMerit")
+        cols.append(["0.0%05d" % (k + 1) for k in range(n)])
     with open(path, "w") as fh:
         fh.write("\ndata_\n\nloop_\n")
         for i, lab in enumerate(labels):
             fh.write("%s #%d\n" % (lab, i + 1))
-        for k, r in enumerate(rows):
-            cells = ["split.mrc.%02d" % (k + 1), "split.mrc.%02d.ctf:mrc" % (k + 1), dec(r["u"], 10, 6), dec(r["v"], 10, 6),
-                     dec(r["ang"], 100, 6), "300.000000", "2.700000", "0.070000"]
-            if with_phase:
-                cells.append(dec(r["ps"], 1000, 6))
-            cells.append("0.0%05d" % (k + 1))
-            fh.write(" ".join("%12s" % c for c in cells) + "\n")
+        for k in range(n):
+            fh.write(" ".join("%12s" % c[k] for c in cols) + "\n")
         fh.write("\n")
 
 
